@@ -252,6 +252,58 @@ def valgrind_subset(chk, nprogs):
     return len(lines)
 
 
+def fuzz_stage(chk, runs_per_job, jobs=12):
+    """libFuzzer (clang, ASan+UBSan, hooks) on parse -> execute under a step budget -> pull k -> abandon.
+    Count-bounded; crash artifacts are re-run one by one to triage."""
+    from vf import build
+    build.build("fuzz")
+    exe = os.path.join(common.VERIF, "build", "fuzz", "drv", "fuzz_exec")
+    work = os.path.join(chk.rundir, "fuzz")
+    corpus = os.path.join(work, "corpus")
+    arts = os.path.join(work, "artifacts")
+    import shutil
+    shutil.rmtree(work, ignore_errors=True)
+    os.makedirs(corpus); os.makedirs(arts)
+    rng = chk.rng("fuzz")
+    for i in range(400):
+        g = zgen.Gen(rng, maxdepth=rng.randint(1, 3))
+        t = zast.text(g.program([])).encode("latin-1")[:300]
+        open(os.path.join(corpus, "s%03d" % i), "wb").write(bytes([rng.randrange(32)]) + t)
+    env = dict(os.environ)
+    env["ASAN_OPTIONS"] = "abort_on_error=1:detect_leaks=0:quarantine_size_mb=8:allocator_may_return_null=1"
+    env["UBSAN_OPTIONS"] = "print_stacktrace=1:halt_on_error=1:abort_on_error=1"
+    cmd = [exe, "-runs=%d" % runs_per_job, "-max_len=300", "-dict=" + os.path.join(common.VERIF, "drv", "zwerg.dict"), "-rss_limit_mb=3000",
+           "-timeout=25", "-jobs=%d" % jobs, "-workers=%d" % jobs, "-artifact_prefix=" + arts + "/", "-seed=%d" % (chk.seed & 0x7fffffff), corpus]
+    p = subprocess.run(cmd, cwd=work, stdout=subprocess.PIPE, stderr=subprocess.STDOUT, env=env, timeout=6 * 3600)
+    execs = 0
+    cov = 0
+    for lf in glob.glob(os.path.join(work, "fuzz-*.log")):
+        txt = open(lf, errors="replace").read()
+        m = re.findall(r"stat::number_of_executed_units: (\d+)", txt)
+        if m:
+            execs += int(m[-1])
+        m = re.findall(r"#(\d+)\s+(?:DONE|REDUCE|NEW|pulse)\s+cov: (\d+)", txt)
+        if m:
+            execs = max(execs, 0)
+            cov = max(cov, int(m[-1][1]))
+            if not re.search(r"number_of_executed_units", txt):
+                execs += int(m[-1][0])
+    nart = 0
+    for a in sorted(os.listdir(arts)):
+        nart += 1
+        path = os.path.join(arts, a)
+        if a.startswith("timeout-") or a.startswith("oom-") or a.startswith("slow-unit-"):
+            # a query that runs long under the fuzzer's wall clock is not a verdict (the step budget bounds it logically)
+            continue
+        r = subprocess.run([exe, path], stdout=subprocess.PIPE, stderr=subprocess.STDOUT, env=env, timeout=600)
+        out = r.stdout.decode("utf-8", "replace")
+        if r.returncode != 0:
+            kind, key = common.classify_report(out, r.returncode)
+            data = open(path, "rb").read()
+            chk.violation("fuzz:" + key, {"artifact": path, "query": repr(data[1:])[:400], "control_byte": data[0] if data else None, "report": out[-3000:]})
+    return dict(executions=execs, coverage_edges=cov, artifacts=nart, corpus=len(os.listdir(corpus)))
+
+
 def run(chk):
     quick = chk.tier == "quick"
     pool = common.Pool()
@@ -270,8 +322,10 @@ def run(chk):
     hs = pool.hook_stats()
     pool.finish()
     vg = 0
+    fz = {}
     if not quick:
         vg = valgrind_subset(chk, 1500)
+        fz = fuzz_stage(chk, 150000)
     chk.cov.update({
         "evaluations": tot.get("abandon_runs", 0) + tot.get("fuel_runs", 0) + tot.get("mutants", 0) + tot.get("dw_runs", 0) + tot.get("accepted", 0),
         "distinct_nontrivial": tot.get("nontrivial", 0) + tot.get("rejected", 0),
@@ -285,7 +339,7 @@ def run(chk):
         "leak_checks": tot.get("leakchecks", 0),
         "H1": {k: hs.get(k) for k in ("scon_new", "scon_del", "scon_con", "scon_des", "scon_get", "fuel_exhausted")},
         "state_types_seen": sorted((hs.get("state_types") or {}).keys()),
-        "valgrind_memcheck_jobs": vg,
+        "valgrind_memcheck_jobs": vg, "libfuzzer": fz,
         "sanitizers": "gcc ASan+UBSan (-fno-sanitize-recover=all), LSan recoverable checks, H1 shadow map; every other property's check runs on the same build",
         "samples": samples[:6],
     })
